@@ -525,4 +525,26 @@ theorem ridgeInit_isSome {n m : ℕ} (L : Mat ℝ n m) (t : Vector ℝ n) : ∃ 
   obtain ⟨C, hC⟩ := chol?_isSome_of_posDef (ridgeGram L) (ridgeGram_symm L) (ridgeGram_posDef L)
   exact ⟨choSolve C (ridgeRhs L t), by unfold ridgeInit; rw [hC]; rfl⟩
 
+/-! ### shifting a list shifts its order statistics and its 1st percentile -/
+
+theorem sortAsc_map_sub (l : List ℝ) (c : ℝ) : sortAsc (l.map (· - c)) = (sortAsc l).map (· - c) := by
+  apply List.Perm.eq_of_pairwise (le := (· ≤ ·))
+  · intro x y _ _ h1 h2; exact le_antisymm h1 h2
+  · exact sortAsc_sorted _
+  · exact (List.pairwise_map).mpr ((sortAsc_sorted l).imp (by intro x y h; linarith))
+  · exact (sortAsc_perm _).trans ((sortAsc_perm l).map _).symm
+
+theorem quantile01_map_sub (l : List ℝ) (hl : 0 < l.length) (c : ℝ) :
+    quantile01 (l.map (· - c)) = quantile01 l - c := by
+  rw [quantile01_eq, quantile01_eq, sortAsc_map_sub, List.length_map]
+  have hlen := sortAsc_length l
+  have key : ∀ i, i < l.length → ((sortAsc l).map (· - c)).getD i 0 = (sortAsc l).getD i 0 - c := by
+    intro i hi
+    have hi' : i < (sortAsc l).length := by rw [hlen]; exact hi
+    simp [List.getD_eq_getElem?_getD, List.getElem?_eq_getElem hi']
+  have alg : ∀ p q w c : ℝ, (p - c) * (1 - w) + (q - c) * w = p * (1 - w) + q * w - c := by
+    intros; ring
+  rw [key _ (by omega), key _ (by split_ifs <;> omega)]
+  exact alg _ _ _ _
+
 end Mellon
